@@ -10,10 +10,10 @@ FragsV == { <<"ta">>, <<"ta", "1">>, <<"ta", "1", "r">>, <<"ta", "1", "rs">>, <<
             <<"ta", "1", "relationships", "r">>, <<"tb">>, <<"tb", "2", "s">>, <<"tc">>, <<"tc", "3">>, <<"zz">>, <<>>,
             <<"ta", "1", "zz">>, <<"ta", "1", "relationships", "zz">>, <<"ta", "1", "rs", "x", "y", "z">>, <<"meta">>,
             <<"ta", "1", "relationships">>, <<"tb", "2", "relationships">>, <<"ta", "1", "rs", "x", "r">>,
-            <<"ta", "1", "relationships", "rs", "x">> }
+            <<"ta", "1", "relationships", "rs", "x">>, <<"td">>, <<"ta", "1", "t">> }
 FieldsV == { <<>>, [ta |-> <<"x">>], [ta |-> <<"x", "y", "r">>], [ta |-> <<"x", "x">>], [ta |-> <<>>],
              [ta |-> <<"id", "zz">>], [ta |-> <<"id">>], [ta |-> <<"id", "x", "id">>], [tb |-> <<"id", "id">>], [tb |-> <<"z">>], [zz |-> <<"a">>], [tc |-> <<"id">>],
-             [ta |-> <<"rs", "r">>, tb |-> <<"q", "z", "zz">>], [tc |-> <<"zz">>], [tb |-> <<"z", "s", "z">>] }
+             [ta |-> <<"rs", "r">>, tb |-> <<"q", "z", "zz">>], [tc |-> <<"zz">>], [tb |-> <<"z", "s", "z">>], [td |-> <<"q", "w">>, tb |-> <<"z">>] }
 SortV == { <<>>, <<Rule("x", FALSE)>>, <<Rule("x", TRUE)>>, <<Rule("id", FALSE)>>, <<Rule("id", TRUE), Rule("x", FALSE)>>,
            <<Rule("zz", FALSE)>>, <<Rule("", TRUE)>>, <<Rule("x", FALSE), Rule("x", FALSE)>>,
            <<Rule("x", FALSE), Rule("x", TRUE), Rule("y", FALSE), Rule("id", FALSE)>>,
@@ -23,7 +23,8 @@ SortV == { <<>>, <<Rule("x", FALSE)>>, <<Rule("x", TRUE)>>, <<Rule("id", FALSE)>
 InclV == { <<>>, <<<<"r">>>>, <<<<"rs">>>>, <<<<"r">>, <<"rs">>>>, <<<<"rs">>, <<"r">>>>, <<<<"zz">>, <<"yy">>>>,
            <<<<"zz">>>>, <<<<"r", "q">>>>, <<<<"r">>, <<"r", "q">>>>, <<<<"r", "q", "rs", "s">>>>, <<<<"r", "zz">>>>,
            <<<<"r">>, <<"r", "zz">>>>, <<<<"q">>>>, <<<<"s", "r">>, <<"q">>, <<"zz">>>>, <<<<"r">>, <<"r">>>>,
-           <<<<"aa">>, <<"bb">>, <<"rs">>>>, <<<<"rs", "s", "rs">>, <<"rs", "s">>, <<"r">>>> }
+           <<<<"aa">>, <<"bb">>, <<"rs">>>>, <<<<"rs", "s", "rs">>, <<"rs", "s">>, <<"r">>>>,
+           <<<<"t">>>>, <<<<"r", "q">>, <<"t", "q">>>>, <<<<"t", "q">>, <<"r", "q">>, <<"rs", "q">>>>, <<<<"t", "q", "s">>, <<"r", "q", "t">>>> }
 FilterV == {"none", "label", "json", "empty", "bad"}
 PageV   == {"none", "size", "sizebad", "both"}
 
